@@ -13,7 +13,7 @@ from oracle import c05ref as ref  # noqa: E402
 from translate import c05gen  # noqa: E402
 
 ENTRY = "DriverC05.lean"
-LEAN_TARGETS = ["QuriVerif.Props.C05", "QuriVerif.Driver.C05"]
+LEAN_TARGETS = ["QuriVerif.Props.C05", "QuriVerif.Props.C05Lift", "QuriVerif.Driver.C05"]
 LEAN_TARGETS_THOROUGH = ["QuriVerif.Props.C05Deep"]
 
 TRUSTED = [
@@ -2247,11 +2247,258 @@ def forms_exact_range(ctx: Ctx):
                     pass
 
 
+# ---------------------------------------------------------------------------
+# operations that involve NO arithmetic rounding by definition (assignment through the constant setter / item assignment, construction,
+# copy, conjugation, negation, multiplication by 1 / -1 / powers of two, accumulation onto an absent label, sums with the empty
+# operator) are judged BIT FOR BIT on arbitrary binary floating point values: non-dyadic (0.1, 1/3, pi), of very different magnitudes
+# (1e16 next to 0.5, 1e-300), complex, and in histories where the slot that is written already holds a different non-zero value.
+# ---------------------------------------------------------------------------
+GENERIC_REALS = [0.1, 0.3, 0.7, 1 / 3, 2 / 3, 0.5, 1.0, 3.141592653589793, 1e16, 1e15 + 0.3, 1e-16, 1e300, 1e-300, 5e-324, 123456789.12345679,
+                 0.09999999999999998, 0.30000000000000004, 2.0**53, 1e9 + 0.1, 7, 10**9 + 1]
+
+
+def generic_real(rng, allow_zero=False):
+    r = rng.random()
+    if allow_zero and r < 0.08:
+        return rng.choice([0, 0.0])
+    if r < 0.5:
+        v = rng.choice(GENERIC_REALS)
+    elif r < 0.8:
+        v = rng.uniform(-2, 2)
+    else:
+        v = rng.random() * 10.0 ** rng.randint(-20, 20)
+    return -v if rng.random() < 0.4 else v
+
+
+def generic_coef(rng, allow_zero=False):
+    """an arbitrary finite Python number (int, float, complex); no rounding-free structure is assumed"""
+    r = rng.random()
+    if r < 0.5:
+        return generic_real(rng, allow_zero)
+    if r < 0.6:
+        return complex(0.0, generic_real(rng))
+    return complex(generic_real(rng), generic_real(rng))
+
+
+def _same_number(a, b) -> bool:
+    """bit-for-bit equality of two finite numbers (as complex values; the sign of a zero is not part of the property)"""
+    try:
+        za, zb = complex(a), complex(b)
+    except Exception:  # noqa: BLE001
+        return False
+    return za.real == zb.real and za.imag == zb.imag
+
+
+def _hexnum(c) -> str:
+    try:
+        z = complex(c)
+        return f"{z.real.hex()}" + (f" {z.imag.hex()}j" if z.imag != 0 else "") + f" ({c!r})"
+    except Exception:  # noqa: BLE001
+        return repr(c)
+
+
+def _snapshot(op):
+    return [(canon_label(l), v) for l, v in op.items()]
+
+
+def _show_snapshot(sn) -> str:
+    return " + ".join(f"{v!r}*[{enc_pairs(l)}]" for l, v in sn) or "0"
+
+
+def generic_real_op(rng, pool, with_constant=None, maxterms=3):
+    from quri_parts.core.operator import Operator
+
+    op = Operator()
+    for _ in range(rng.randint(0, maxterms)):
+        op[build_label(rng, rand_valid_pairs(rng, pool), rng.choice(ROUTES))] = generic_coef(rng)
+    if with_constant is not None:
+        op[build_label(rng, [], rng.choice(["set", "ctor", "list"]))] = with_constant
+    return op
+
+
+def forms_bit_exact(ctx: Ctx):
+    from quri_parts.core.operator import PAULI_IDENTITY, Operator, get_sparse_matrix, transition_amp_comp_basis, transition_amp_representation
+
+    zero = (_api(ctx, "quri_parts.core.operator", ["zero"]) or [Operator])[0]
+    rng = ctx.rng
+    pool = [0, 1, 2]
+
+    def diff_others(before, op, skip):
+        """entries other than `skip` that are not bit-for-bit what they were"""
+        now = dict(_snapshot(op))
+        bad = []
+        for l, v in before:
+            if l == skip:
+                continue
+            if l not in now or not _same_number(now[l], v):
+                bad.append((l, v, now.get(l)))
+        for l in now:
+            if l != skip and l not in dict(before):
+                bad.append((l, None, now[l]))
+        return bad
+
+    # ---- (1) assignment histories: the constant setter and item assignment over an existing, different value
+    for _ in range(ctx.n(400, 5000)):
+        c0 = generic_coef(rng) if rng.random() < 0.85 else None  # None: no identity term yet
+        op = generic_real_op(rng, pool, c0)
+        hist = [f"op = {_show_snapshot(_snapshot(op))}"]
+        alias = op
+        rebinding = False
+        try:
+            for _ in range(rng.choice([0, 0, 1, 2, 3])):
+                k = rng.choice(["+=", "-=", "*=", "/=", "add_term"])
+                if k in ("+=", "-="):
+                    o2 = generic_real_op(rng, pool, generic_coef(rng) if rng.random() < 0.7 else None, 2)
+                    hist.append(f"op {k} {_show_snapshot(_snapshot(o2))}")
+                    if k == "+=":
+                        op += o2
+                    else:
+                        op -= o2
+                elif k == "*=":
+                    sc = rng.choice([2, 0.5, -1, 3, 0.1, 1j, 1e8])
+                    hist.append(f"op *= {sc!r}")
+                    op *= sc  # no __imul__: rebinds the name (plain Python semantics)
+                    rebinding = True
+                elif k == "/=":
+                    sc = rng.choice([2, 0.5, -1, 3, 10, 1j, 1e-8, 7.0])
+                    hist.append(f"op /= {sc!r}")
+                    op /= sc
+                else:
+                    cc = generic_coef(rng)
+                    hist.append(f"op.add_term(I, {cc!r})")
+                    op.add_term(PAULI_IDENTITY, cc)
+            import cmath
+
+            if not all(cmath.isfinite(complex(v0)) for _, v0 in _snapshot(op)):
+                ctx.count("bit_exact_assign", "history overflowed: not judged")
+                continue
+            obj = op
+            n_sets = rng.choice([1, 1, 2, 3])
+            for si in range(n_sets):
+                use_item = rng.random() < 0.3
+                if use_item:
+                    keys = sorted({l for l, _ in _snapshot(op)} | {()})
+                    tgt = rng.choice(keys) if rng.random() < 0.7 else tuple(sorted(rand_valid_pairs(rng, pool)))
+                else:
+                    tgt = ()
+                v = generic_coef(rng, allow_zero=True)
+                if rng.random() < 0.15 and dict(_snapshot(op)).get(tgt) is not None:
+                    # a value next to the stored one, and one dwarfed by it
+                    old = complex(dict(_snapshot(op))[tgt])
+                    v = rng.choice([old.real * 1e-17 if old.imag == 0 else old * 1e-17, old * (1 + 2.0**-30), 0.5, 0.1])
+                before = _snapshot(op)
+                old_v = dict(before).get(tgt)
+                stmt = f"op.constant = {v!r}" if not use_item else f"op[{enc_pairs(tgt)}] = {v!r}"
+                hist.append(stmt)
+                if use_item:
+                    op[build_label(rng, list(tgt), rng.choice(ROUTES))] = v
+                else:
+                    op.constant = v
+                ctx.traces += 1
+                ctx.count("bit_exact_assign", ("constant" if not use_item else "item") + (" over-existing" if old_v is not None and complex(old_v) != 0
+                                                                                           else " fresh"))
+                inp = {"history": list(hist), "statement": stmt, "stored_before": None if old_v is None else _hexnum(old_v)}
+                now = dict(_snapshot(op))
+                zero_v = complex(v) == 0
+                stored = now.get(tgt)
+                ok = (stored is not None and _same_number(stored, v)) or (zero_v and stored is None)
+                if not ok:
+                    ctx.witness("assignment-not-exact", f"after `{stmt}` the stored coefficient is not the value assigned, bit for bit "
+                                "(an assignment involves no arithmetic)", inp,
+                                {"assigned": _hexnum(v), "stored": "term absent" if stored is None else _hexnum(stored)})
+                    break
+                if tgt == ():
+                    try:
+                        rb = op.constant
+                    except Exception as e:  # noqa: BLE001
+                        rb = f"{type(e).__name__}"
+                    if not _same_number(rb, v):
+                        ctx.witness("assignment-not-exact", f"after `{stmt}` op.constant reads back a different value", inp,
+                                    {"assigned": _hexnum(v), "read": _hexnum(rb)})
+                        break
+                bad = diff_others(before, op, tgt)
+                if bad or op is not obj:
+                    ctx.witness("assignment-not-exact", f"`{stmt}` changes another term (or replaces the object)", inp, {"changed": str(bad)[:300]})
+                    break
+                # the export sees the assigned constant exactly when no other diagonal term contributes
+                if tgt == () and not zero_v and rng.random() < 0.3 and not any(l != () and all(o == 3 for _, o in l) for l in now):
+                    arr = get_sparse_matrix(op, 3).toarray()
+                    rep = transition_amp_representation(op)
+                    m = rng.randrange(8)
+                    if not _same_number(arr[m][m], v) or not _same_number(transition_amp_comp_basis(rep, m, m), v):
+                        ctx.witness("assignment-not-exact", f"after `{stmt}` the exported diagonal entry <{m}|O|{m}> is not the constant", inp,
+                                    {"assigned": _hexnum(v), "sparse": _hexnum(arr[m][m]), "amplitude": _hexnum(transition_amp_comp_basis(rep, m, m))})
+                        break
+            if not rebinding and op is not alias:
+                ctx.witness("assignment-not-exact", "an in-place update replaced the object", {"history": hist})
+        except Exception as e:  # noqa: BLE001
+            ctx.witness("raises", f"in-place history raises {type(e).__name__}: {e}", {"history": hist})
+
+    # ---- (2) rounding-free operations on arbitrary values
+    def same_map(got, want):
+        g = dict(_snapshot(got))
+        return set(g) == set(want) and all(_same_number(g[l], want[l]) for l in want)
+
+    for _ in range(ctx.n(300, 4000)):
+        a = generic_real_op(rng, pool, generic_coef(rng) if rng.random() < 0.6 else None)
+        sa = _snapshot(a)
+        da = dict(sa)
+        fresh = tuple(sorted(rand_valid_pairs(rng, [3, 4])) or [(3, 1)])
+        cf = generic_coef(rng)
+        k2 = rng.choice([-3, -1, 1, 2, 10, 40])
+        # disjoint operand: labels on qubits 3, 4 only (never the identity)
+        b = Operator()
+        for _ in range(rng.randint(0, 2)):
+            b[build_label(rng, sorted(rand_valid_pairs(rng, [3, 4])) or [(4, 2)], rng.choice(ROUTES))] = generic_coef(rng)
+        db = dict(_snapshot(b))
+        neg = lambda d: {l: -complex(v) for l, v in d.items()}  # noqa: E731  (negation is exact)
+        cases = [
+            ("a.copy()", lambda: a.copy(), da), ("Operator(a)", lambda: Operator(a), da), ("Operator(dict(a))", lambda: Operator(dict(a)), da),
+            ("Operator(list(a.items()))", lambda: Operator(list(a.items())), da),
+            ("a.hermitian_conjugated()", lambda: a.hermitian_conjugated(), {l: complex(v).conjugate() for l, v in da.items()}),
+            ("a.hermitian_conjugated().hermitian_conjugated()", lambda: a.hermitian_conjugated().hermitian_conjugated(), da),
+            ("a * 1", lambda: a * rng.choice([1, 1.0, 1 + 0j, True]), da), ("1 * a", lambda: rng.choice([1, 1.0, 1 + 0j]) * a, da),
+            ("a / 1", lambda: a / rng.choice([1, 1.0]), da), ("a * -1", lambda: a * rng.choice([-1, -1.0]), neg(da)),
+            ("a / -1", lambda: a / rng.choice([-1, -1.0]), neg(da)),
+            ("a + zero()", lambda: a + zero(), da), ("zero() + a", lambda: zero() + a, da), ("a - zero()", lambda: a - zero(), da),
+            ("zero() - a", lambda: zero() - a, neg(da)),
+            ("a + b (disjoint labels)", lambda: a + b, {**da, **db}), ("a - b (disjoint labels)", lambda: a - b, {**da, **neg(db)}),
+            ("b + a (disjoint labels)", lambda: b + a, {**da, **db}),
+            ("a += b (disjoint labels)", lambda: a.copy().__iadd__(b), {**da, **db}),
+            ("a -= b (disjoint labels)", lambda: a.copy().__isub__(b), {**da, **neg(db)}),
+            (f"a.add_term([{enc_pairs(fresh)}], {cf!r})", None, {**da, fresh: cf}),
+        ]
+        # scaling by a power of two is exact unless it leaves the normal range
+        big = [abs(x) for v in da.values() for x in (complex(v).real, complex(v).imag) if x != 0]
+        if all(1e-280 < x < 1e280 for x in big):
+            sc = 2.0**k2
+            cases.append((f"a * {sc!r}", lambda: a * sc, {l: complex(v) * sc for l, v in da.items()}))
+            cases.append((f"a / {sc!r}", lambda: a / sc, {l: complex(v) / sc for l, v in da.items()}))
+        # zero coefficients are never accumulated; everything above has none
+        cases = [c for c in cases if all(complex(v) != 0 for v in c[2].values())]
+        for name, f, want in cases:
+            inp = {"a": _show_snapshot(sa), "b": _show_snapshot(_snapshot(b)), "operation": name}
+            ctx.traces += 1
+            ctx.count("bit_exact_ops", name.split("(")[0].strip()[:24])
+            try:
+                if f is None:
+                    got = a.copy()
+                    got.add_term(build_label(rng, list(fresh), rng.choice(ROUTES)), cf)
+                else:
+                    got = f()
+                if not same_map(got, want) or not same_map(a, da):
+                    ctx.witness("exact-operation-rounds", f"{name}: the result is not bit for bit the input values (the operation involves no rounding)",
+                                inp, {"result": _show_snapshot(_snapshot(got))[:400],
+                                      "expected": " + ".join(f"{v!r}*[{enc_pairs(l)}]" for l, v in want.items())[:400]})
+            except Exception as e:  # noqa: BLE001
+                ctx.witness("raises", f"{name} raises {type(e).__name__}: {e}", inp)
+
+
 def check_forms(ctx: Ctx):
     for name, fn in [("operands", forms_operands), ("errors", forms_errors), ("accessors", forms_accessors), ("predicates", forms_predicates),
                      ("operator_str", forms_operator_str), ("commute", forms_commute), ("fresh_results", forms_fresh_results),
                      ("histories", forms_histories), ("big_register", forms_big_register), ("trotter", forms_trotter),
-                     ("exact_range", forms_exact_range)]:
+                     ("exact_range", forms_exact_range), ("bit_exact", forms_bit_exact)]:
         _section(ctx, name, fn)
 
 
@@ -2278,11 +2525,13 @@ def run(ctx: Ctx, replay=None) -> int:
     ]
     gen(ctx)
     deep = [] if ctx.quick() else LEAN_TARGETS_THOROUGH
-    ok = ctx.prove(PROP_MODULES + deep + ["QuriVerif.Driver.C05"], OBL_MODULES + deep)
+    lift = ["QuriVerif.Props.C05Lift"]
+    ok = ctx.prove(PROP_MODULES + lift + deep + ["QuriVerif.Driver.C05"], OBL_MODULES + lift + deep)
     if ok:
         names = [f"QV.Props.C05.{n}" for _, n, _ in ctx.count_obligations(["QuriVerif.Props.C05"])]
         names += [f"QV.Props.C05Deep.{n}" for m in deep for _, n, _ in ctx.count_obligations([m])]
-        ctx.audit(names, PROP_MODULES + deep)
+        names += [f"QV.Props.C05Lift.{n}" for _, n, _ in ctx.count_obligations(lift)]
+        ctx.audit(names, PROP_MODULES + lift + deep)
     with ctx.timed("witness_replay"):
         replay_isub_witness(ctx)
         replay_identity_witness(ctx)
